@@ -231,7 +231,7 @@ def tokenizer_link(idx: List[int]) -> bool:
 
 # annotation shapes: digits are tag slots
 SHAPES = ["0", "0,1", "(0,1)", "(0),1", "(0,1),2", "(0,(1)),2", "((0,1),2)", "(0,1),(2,3)", "(0,(1,2)),3",
-          "(0,1),(2,(3,4))", "((0,1),2),(3),4"]
+          "(0,1),(2,(3,4))", "((0,1),2),(3),4", "0,1,2", "(0,1,2),3"]
 # a shape and the same tree with siblings reordered at every level
 PERMS = [("0,1", "1,0"), ("(0,1)", "(1,0)"), ("(0),1", "1,(0)"), ("(0,1),2", "2,(1,0)"),
          ("(0,(1)),2", "2,((1),0)"), ("0,1,2", "1,2,0"), ("(0,1),(2,3)", "(3,2),(1,0)"),
@@ -522,10 +522,13 @@ HARNESSES = [
         oracle="runs of the real search on the same annotation; distinct-tag witness computed from the tag letters",
         stubs=_STUB, outside="other shapes / sub-queries; multi-character tags; the bundled schemas"),
     R.H("and_assoc", _TA,
-        quick=R.tier(cells=_sq([4], 3, True), timeout=300,
-                     bound=_SHAPES_TXT % "(0,1),2" + "; A, B, C from the first 3 sub-queries of SUBQ"),
-        thorough=R.tier(cells=_sq([4], 4, True) + _sq([5], 3, True) + _sq([6, 7], 2, True), timeout=900, path_timeout=30,
-                        bound="(0,1),2 x first 4 sub-queries; (0,(1)),2 x first 3; ((0,1),2) and (0,1),(2,3) x first 2"),
+        quick=R.tier(cells=_sq([4], 3, True) + _sq([11], 3, True), timeout=300,
+                     bound=_SHAPES_TXT % "(0,1),2 and 0,1,2 (three siblings)" + "; A, B, C from the first 3 sub-queries of "
+                           "SUBQ, repeats allowed"),
+        thorough=R.tier(cells=_sq([4, 11], 4, True) + _sq([5, 12], 3, True) + _sq([6, 7], 2, True), timeout=900,
+                        path_timeout=30,
+                        bound="(0,1),2 and 0,1,2 x first 4 sub-queries; (0,(1)),2 and (0,1,2),3 x first 3; ((0,1),2) and "
+                              "(0,1),(2,3) x first 2"),
         what="'(A && B) && C' and 'A && (B && C)' give the same verdict",
         oracle="two runs of the real search", stubs=_STUB, outside="other shapes / sub-queries"),
     R.H("term_modes", _TA,
